@@ -100,6 +100,14 @@ def regenerate():
     rc, out = sh([PY, os.path.join(VERIF, "harness", "extract_clean.py"), os.path.join(COQ, "Gen", "CleanGen.v")], 60, env=IMPL_ENV)
     if rc != 0:
         raise BuildError("extract_clean failed:\n" + out)
+    # the walk and dispatch of the optional sections
+    rc, out = sh([PY, os.path.join(VERIF, "harness", "extract_sections.py"), os.path.join(COQ, "Gen", "Sections.v")], 60, env=IMPL_ENV)
+    if rc != 0:
+        raise BuildError("extract_sections failed:\n" + out)
+    # the DataStream primitives, as source text
+    rc, out = sh([PY, os.path.join(VERIF, "harness", "extract_datastream.py"), os.path.join(COQ, "Gen", "DataStreamGen.v")], 60, env=IMPL_ENV)
+    if rc != 0:
+        raise BuildError("extract_datastream failed:\n" + out)
     # the I/O-drawer stream readers, translated from the source text into programs of Model/StreamProg.v
     rc, out = sh([PY, os.path.join(VERIF, "harness", "extract_readers.py"), os.path.join(COQ, "Gen", "Readers.v")], 60, env=IMPL_ENV)
     if rc != 0:
@@ -359,8 +367,11 @@ def finish(run, proof):
         print("VIOLATION property=%s replay=%s%s" % (run.pid, path, " no-failing-input-found" if v["no_input"] else ""))
         rc = 1
     ev = dict(
-        property_id=run.pid, tier=run.tier, seed=run.seed, level="proof",
+        # a run whose proof obligations do not all check is not a proof-level run: what it covered is its exploration
+        property_id=run.pid, tier=run.tier, seed=run.seed, level="proof" if proof["ok"] else "exploration",
         coverage=dict(
+            **({} if proof["ok"] else dict(explanation="a proof obligation of this property no longer checks against the current tree (see proof_error); "
+                                                       "the run reports the violation and records only what its search explored")),
             obligations=len(proof["theorems"]),
             discharged=len(proof["theorems"]) if proof["ok"] else 0,
             theorems=proof["theorems"],
